@@ -27,6 +27,7 @@ import E2P.Generated.Facade
 import E2P.Model.Graph
 import E2P.Model.Peg
 import E2P.Generated.Grammar
+import E2P.Model.Quote
 import E2P.Generated.RuntimeConsts
 open E2P
 
@@ -522,6 +523,20 @@ def handlePeg (args : List String) : String :=
       s!"{m} | - | "
   | _ => "bad-op"
 
+/-! quoting: `qt <S-encoded text>` → model = repr(text) (S-encoded), flag rt-bad if the model's own round trip fails -/
+def handleQuote (args : List String) : String :=
+  match args with
+  | [t] =>
+    match decVal [t] with
+    | some (.str s, []) =>
+      let r := pyRepr s
+      let ok := match pyStringLiteral? (r ++ " + x".toList) with
+        | some (v, rest) => v == s && rest == " + x".toList
+        | none => false
+      s!"{encStr r} | - | {if ok then "" else "rt-bad"}"
+    | _ => "bad-op"
+  | _ => "bad-op"
+
 def handle (line : String) : String :=
   match tokens line with
   | "echo" :: rest =>
@@ -540,6 +555,7 @@ def handle (line : String) : String :=
   | "fc" :: rest => handleFacade rest
   | "gr" :: rest => handleGraph rest
   | "pg" :: rest => handlePeg rest
+  | "qt" :: rest => handleQuote rest
   | _ => "bad-op"
 
 partial def loop (h : IO.FS.Stream) (out : IO.FS.Stream) : IO Unit := do
